@@ -1,5 +1,50 @@
 import JF.Driver.Core
+import JF.Model.Potential.Derivative
+import JF.Model.Potential.DerivativeEwald
+/-!
+Line-protocol component `deriv`: the binary64 reading of the derivative models (property C03).
+Floats cross as uint64 bit patterns; Python exceptions as `err:<Name>`.
+-/
 namespace JF.Driver
-/-- component `deriv` (stub until its model is written) -/
-def derivComp : Comp := Comp.pure fun _ => "unimplemented"
+open JF JF.Deriv
+
+private def o : DOps Float := DOps.float
+private def v3 (a b c : String) : V3 Float := ⟨fl a, fl b, fl c⟩
+
+private def showR (r : Res Float) : String :=
+  match r with
+  | .ok x => bits x
+  | .error e => "err:" ++ e
+
+private def showR3 (r : Res (Float × Float × Float)) : String :=
+  match r with
+  | .ok (a, b, c) => s!"{bits a} {bits b} {bits c}"
+  | .error e => "err:" ++ e
+
+/-- component `deriv` -/
+def derivComp : Comp := Comp.pure fun
+  | ["erfc", x] => bits (erfcF (fl x))
+  | ["norm", a, b, c] => showR (norm o (v3 a b c))
+  | ["ip", power, pref, vx, vy, vz, sx, sy, sz, c1, c2] =>
+      showR (do let p ← IP.make o (fl power) (fl pref)
+                p.derivative o (v3 vx vy vz) (v3 sx sy sz) (fl c1) (fl c2))
+  | ["lj", pref, cl, vx, vy, vz, sx, sy, sz] =>
+      showR (do let p ← LJ.make o (fl pref) (fl cl)
+                p.derivative o (v3 vx vy vz) (v3 sx sy sz))
+  | ["dep", eq, power, pref, vx, vy, vz, sx, sy, sz] =>
+      showR (do let p ← DEP.make o (fl eq) (int! power) (fl pref)
+                p.derivative o (v3 vx vy vz) (v3 sx sy sz))
+  | ["bend", eq, pref, vx, vy, vz, ax, ay, az, bx, b_y, bz] =>
+      showR3 (do let p ← Bend.make o (fl eq) (fl pref)
+                 p.derivative o (v3 vx vy vz) (v3 ax ay az) (v3 bx b_y bz))
+  | ["bound", pref, vx, vy, vz, sx, sy, sz, c1, c2] =>
+      showR (do let p ← Bound.make o (fl pref)
+                p.derivative o (v3 vx vy vz) (v3 sx sy sz) (fl c1) (fl c2))
+  | ["ewald", alpha, fc, pc, pref, len, vx, vy, vz, sx, sy, sz, c1, c2] =>
+      showR (do let m ← Merged.make o (fl alpha) (int! fc) (int! pc) (fl pref) (fl len)
+                m.derivative o (v3 vx vy vz) (v3 sx sy sz) (fl c1) (fl c2))
+  | ["ewaldraw", alpha, fc, pc, len, sx, sy, sz] =>
+      bits (ewaldC o (Ewald.construct o (nat! fc) (nat! pc) (fl alpha) (fl len)) (fl sx) (fl sy) (fl sz))
+  | ["farr", alpha, len, i, j, k] => bits (fourierCoeff o (fl alpha) (fl len) (nat! i) (nat! j) (nat! k))
+  | _ => "bad-op"
 end JF.Driver
